@@ -3,7 +3,7 @@
 from ..runner import Cell
 from ..driver import Finite, assume
 from .common import *  # noqa: F401,F403
-from .tracer_capture import capture_forward, capture_arc_like, capture_spline
+from .tracer_capture import capture_forward, capture_arc_like, capture_spline, capture_arc_full
 from .c01 import frame_condition
 
 PROPERTY_ID = "C11"
@@ -19,7 +19,7 @@ BOUNDS = ("Two builders start at the same symbolic position, one in absolute and
           "over start and waypoints: the interpreted machine positions after every line and the "
           "tracked positions are equal. (b) tracer shapes {arc, helix, arc_radius, circle, thread, "
           "spiral, spline(2 points), polyline(2 points)} x 2D/3D: the absolute geometry handed to "
-          "the sampler (start-centre and target-centre offsets, forwarded targets/centres/turns, "
+          "the sampler (start-centre and target-centre offsets, arc Z travel and path length, forwarded targets/centres/turns, "
           "spline control points) is identical in both modes for all start/target/centre values; "
           "the emission loop of parametric() (to_distance_mode + move per vertex) is run on two symbolic sample "
           "points in both modes (curve function and segment filter stubbed) and must reach exactly "
@@ -155,6 +155,20 @@ def _make_shape(shape, dims):
                     return V(f"{shape}-geometry-differs-between-modes",
                              lambda: f"absolute mode {ca!r}, relative mode {cb!r} (start {o!r}, "
                                      f"target {t_abs!r}, centre offset {c!r})")
+        elif shape == "arc-z":
+            try:
+                ra_, ca_ = capture_arc_full(ga, lambda g: g.trace.arc(t_abs, c))
+                rb_, cb_ = capture_arc_full(gb, lambda g: g.trace.arc(t_rel, c))
+            except Exception as e:  # noqa: BLE001
+                msg = f"{exc_name(e)}: {e}"
+                return V("arc-unexpected-exception", msg)
+            if len(ra_.hypots) != 3 or len(rb_.hypots) != 3:
+                return V("arc-geometry-not-captured", lambda: f"{ra_.hypots!r} {rb_.hypots!r}")
+            for (a1, a2), (b1, b2) in zip(ra_.hypots, rb_.hypots):
+                if not (same(a1, b1) and same(a2, b2)):
+                    return V("arc-geometry-differs-between-modes",
+                             lambda: f"absolute mode {ra_.hypots!r}, relative mode {rb_.hypots!r} "
+                                     f"(start {o!r}, target {t_abs!r})")
         elif shape == "arc_radius":
             assume(r != 0)
             ca = capture_arc_like(ga, lambda g: g.trace.arc_radius(t_abs, r), n_hypot=1)
@@ -299,7 +313,7 @@ def cells(tier):
     for with_f in (False, True):
         out.append(Cell(f"parametric-emission|F={with_f}", _make_parametric(with_f), budget_s=budget,
                         must_reach=("compared",), entry="PathTracer.parametric (emission loop)"))
-    for shape in ("arc", "helix", "arc_radius", "circle", "thread", "spiral", "spline", "polyline"):
+    for shape in ("arc", "arc-z", "helix", "arc_radius", "circle", "thread", "spiral", "spline", "polyline"):
         for dims in (2, 3):
             out.append(Cell(f"shape|{shape}|{dims}d", _make_shape(shape, dims), budget_s=budget,
                             must_reach=("compared",), entry=f"PathTracer.{shape}"))
